@@ -18,6 +18,84 @@ var accessFiles = []string{"olareg.go", "internal/store/dir.go", "internal/store
 var sharedTypes = map[string]bool{"Server": true, "dir": true, "dirRepo": true, "dirRepoUpload": true, "mem": true, "memRepo": true,
 	"memRepoUpload": true, "Cache": true}
 
+// methods of the standard library's buffers, files, writers and hashes that change the object they are called on
+var mutatingMethods = map[string]bool{"Write": true, "WriteString": true, "WriteByte": true, "ReadFrom": true, "Reset": true, "Truncate": true,
+	"Grow": true, "Seek": true, "Sync": true, "Read": true}
+
+// constructors of the standard library that return a wrapper over their arguments
+var wrapperFuncs = map[string]bool{"MultiWriter": true, "TeeReader": true, "NewWriter": true, "NewReader": true, "NewBuffer": true, "MultiReader": true}
+
+// aliases: recv.F = f(..., recv.G, ...) makes what F holds a wrapper of what G holds (a MultiWriter over a buffer or a file):
+// a write through F is a write of G.  Also the composite literal T{F: w, G: b} with w := f(..., b, ...) in the same function.
+func collectAliases(fset *token.FileSet, fd *ast.FuncDecl, recv string, typ string, out map[[3]string]bool) {
+	fieldOf := func(e ast.Expr) string {
+		if s, ok := e.(*ast.SelectorExpr); ok {
+			if id, ok := s.X.(*ast.Ident); ok && id.Name == recv && recv != "" {
+				return s.Sel.Name
+			}
+		}
+		return ""
+	}
+	// local variable -> identifiers / receiver fields used in the call that defined it
+	defs := map[string][]ast.Expr{}
+	ast.Inspect(fd.Body, func(n ast.Node) bool {
+		as, ok := n.(*ast.AssignStmt)
+		if !ok || len(as.Lhs) != len(as.Rhs) {
+			return true
+		}
+		for i, l := range as.Lhs {
+			call, ok := as.Rhs[i].(*ast.CallExpr)
+			if !ok {
+				continue
+			}
+			if fs, ok := call.Fun.(*ast.SelectorExpr); !ok || !wrapperFuncs[fs.Sel.Name] {
+				continue
+			}
+			if f := fieldOf(l); f != "" {
+				for _, a := range call.Args {
+					if g := fieldOf(a); g != "" && g != f {
+						out[[3]string{typ, f, g}] = true
+					}
+				}
+			}
+			if id, ok := l.(*ast.Ident); ok {
+				defs[id.Name] = call.Args
+			}
+		}
+		return true
+	})
+	ast.Inspect(fd.Body, func(n ast.Node) bool {
+		cl, ok := n.(*ast.CompositeLit)
+		if !ok {
+			return true
+		}
+		t := strings.TrimPrefix(exprText(fset, cl.Type), "*")
+		if !sharedTypes[t] {
+			return true
+		}
+		byVar := map[string]string{}
+		for _, el := range cl.Elts {
+			if kv, ok := el.(*ast.KeyValueExpr); ok {
+				if k, ok := kv.Key.(*ast.Ident); ok {
+					if v, ok := kv.Value.(*ast.Ident); ok {
+						byVar[v.Name] = k.Name
+					}
+				}
+			}
+		}
+		for v, f := range byVar {
+			for _, a := range defs[v] {
+				if id, ok := a.(*ast.Ident); ok {
+					if g, ok := byVar[id.Name]; ok && g != f {
+						out[[3]string{t, f, g}] = true
+					}
+				}
+			}
+		}
+		return true
+	})
+}
+
 func recvInfo(fd *ast.FuncDecl, fset *token.FileSet) (string, string) {
 	if fd.Recv == nil || len(fd.Recv.List) == 0 || len(fd.Recv.List[0].Names) == 0 {
 		return "", ""
@@ -124,6 +202,13 @@ func collectAccess(fset *token.FileSet, fd *ast.FuncDecl, recv string, out *[]st
 					writes[s] = true
 				}
 			}
+			// recv.field.Write(...), .Reset(), .Seek(...), ...: the object the field holds (a buffer, a file, a writer) is
+			// changed through a method - a write of the field as far as the lockset discipline goes
+			if sel, ok := x.Fun.(*ast.SelectorExpr); ok && mutatingMethods[sel.Sel.Name] {
+				if s, ok := rootField(sel.X); ok {
+					writes[s] = true
+				}
+			}
 		}
 		return true
 	})
@@ -219,6 +304,7 @@ func genAccess(repo, out string) {
 		ops    []string
 	}
 	var fns []fn
+	aliases := map[[3]string]bool{}
 	for _, f := range accessFiles {
 		af, err := parser.ParseFile(fset, filepath.Join(repo, f), nil, 0)
 		if err != nil {
@@ -231,6 +317,7 @@ func genAccess(repo, out string) {
 				continue
 			}
 			recv, typ := recvInfo(fd, fset)
+			collectAliases(fset, fd, recv, typ, aliases)
 			if recv == "" || !sharedTypes[typ] {
 				continue
 			}
@@ -261,6 +348,23 @@ func genAccess(repo, out string) {
 			sep = ""
 		}
 		fmt.Fprintf(&b, "  (%s, (%v, [%s]))%s\n", cstr(f.key), f.locked, strings.Join(ops, "; "), sep)
+	}
+	b.WriteString("].\n\n")
+	b.WriteString("(* (type, field, wrapped field): the field holds a wrapper built over what the other field holds (recv.F = f(.., recv.G, ..),\n   or T{F: w, G: b} with w := f(.., b, ..)): a write through the first is a write of the second *)\n")
+	b.WriteString("Definition gen_aliases : list (string * (string * string)) := [\n")
+	var al [][3]string
+	for a := range aliases {
+		if sharedTypes[a[0]] {
+			al = append(al, a)
+		}
+	}
+	sort.Slice(al, func(i, j int) bool { return al[i][0]+al[i][1]+al[i][2] < al[j][0]+al[j][1]+al[j][2] })
+	for i, a := range al {
+		sep := ";"
+		if i == len(al)-1 {
+			sep = ""
+		}
+		fmt.Fprintf(&b, "  (%s, (%s, %s))%s\n", cstr(a[0]), cstr(a[1]), cstr(a[2]), sep)
 	}
 	b.WriteString("].\n")
 	write(out, "Gen_Access.v", b.String())
